@@ -202,11 +202,16 @@ CHECKS = {
     "C20": dict(
         category="proof",
         text=("Partial (datetime/pytz arithmetic observed): Lean proves that the transition table pytz uses 1996-2037 IS the EU rule (84 rows, decide +kernel), that the "
-              "verdict of 932-935 is a function of the instant (C20_notation, C20_shift), 931 = zero offset, and the hour-grid lemma that makes the exhaustive sweep "
-              "over all 368184 whole hours (thorough tier) meet every fulfilled instant. The implementation is compared with independent integer arithmetic of the EU "
-              "rule over every switch day of all 42 years, random seconds, 11 offsets incl. fractional ones and 7 notations, plus the non-datetime stream."),
-        design_ref="§5 C20",
-        note=NOTE_COMMON + "Modelled rather than verified: datetime.fromisoformat's syntax (sampled), astimezone, pytz lookup (corresponded).",
+              "offset in force at EVERY second from 1996 to the end of 2037 is the EU rule's (C20_eu_summer / _winter / _before_first / _after_last) with the closed form of "
+              "the verdicts (22:00/04:00 UTC in summer, 23:00/05:00 UTC in winter), that the verdict of 932-935 is a function of the instant (C20_notation, C20_shift), "
+              "931 = zero offset, and the hour-grid lemma that makes the exhaustive sweep over all 368184 whole hours (thorough tier) meet every fulfilled instant. "
+              "String level (Model/Iso.lean, C20Iso.lean): parse_as_datetime is modelled on the extended ISO-8601 family YYYY-MM-DD<sep>HH:MM:SS(Z|+-HH:MM|+-HH:MM:SS); "
+              "every valid datetime in every such writing is read back as itself (C20_iso_roundtrip), what is read is in range (C20_iso_sound), two writings of one instant "
+              "get one verdict (C20_iso_notation, C20_iso_every_writing), out-of-range fields give unfulfilled + message (C20_iso_invalid). The `iso` correspondence sends only the "
+              "string to the model and compares parsed fields and all five verdicts. The implementation is compared with independent integer arithmetic of the EU "
+              "rule over every switch day of all 42 years, random seconds, 11 offsets incl. fractional ones and 7 notations plus the family's 16 separators / 4 offset styles, plus the non-datetime stream."),
+        design_ref="§5 C20, §13",
+        note=NOTE_COMMON + "Modelled rather than verified: datetime.fromisoformat outside the extended family (basic format, +hh, +hhmm, fractions, week dates: sampled), astimezone, pytz lookup (corresponded).",
         technique="Lean 4 proof over the extracted pytz table + exhaustive/hour-grid comparison with independent arithmetic",
     ),
     "C03": dict(
